@@ -5,10 +5,17 @@ open Percival.Model.WipeLang
 
 /-- `blinded_modexp` in crypto/crypto_dh.c -/
 def blindedModexp : List Stmt := [
-  .call "" "crypto_entropy_read" ["blinding", "CRYPTO_DH_PRIVLEN"] (some "err0"),
-  .call "" "split_exponent" ["priv", "blinding", "bexp", "dexp"] none,
-  .call "blinding_bn" "BN_bin2bn" ["bexp", "CRYPTO_DH_PRIVLEN + 1", "NULL"] (some "err1"),
-  .call "priv_blinded" "BN_bin2bn" ["dexp", "CRYPTO_DH_PRIVLEN + 1", "NULL"] (some "err3"),
+  .call "two_exp_256_bn" "BN_bin2bn" ["two_exp_256", "33", "NULL"] (some "err0"),
+  .call "priv_bn" "BN_bin2bn" ["priv", "CRYPTO_DH_PRIVLEN", "NULL"] (some "err1"),
+  .call "" "BN_add" ["priv_bn", "priv_bn", "two_exp_256_bn"] (some "err2"),
+  .call "" "BN_add" ["priv_bn", "priv_bn", "two_exp_256_bn"] (some "err2"),
+  .call "" "BN_add" ["priv_bn", "priv_bn", "two_exp_256_bn"] (some "err2"),
+  .call "" "BN_add" ["priv_bn", "priv_bn", "two_exp_256_bn"] (some "err2"),
+  .call "" "crypto_entropy_read" ["blinding", "CRYPTO_DH_PRIVLEN"] (some "err2"),
+  .call "blinding_bn" "BN_bin2bn" ["blinding", "CRYPTO_DH_PRIVLEN", "NULL"] (some "err2"),
+  .call "" "BN_add" ["blinding_bn", "blinding_bn", "two_exp_256_bn"] (some "err3"),
+  .call "priv_blinded" "BN_new" [] (some "err3"),
+  .call "" "BN_sub" ["priv_blinded", "priv_bn", "blinding_bn"] (some "err4"),
   .call "m_bn" "BN_bin2bn" ["crypto_dh_group14", "256", "NULL"] (some "err4"),
   .call "ctx" "BN_CTX_new" [] (some "err5"),
   .call "r1" "BN_new" [] (some "err6"),
@@ -27,9 +34,8 @@ def blindedModexp : List Stmt := [
   .call "" "BN_free" ["m_bn"] none,
   .call "" "BN_clear_free" ["priv_blinded"] none,
   .call "" "BN_clear_free" ["blinding_bn"] none,
-  .call "" "insecure_memzero" ["dexp", "CRYPTO_DH_PRIVLEN + 1"] none,
-  .call "" "insecure_memzero" ["bexp", "CRYPTO_DH_PRIVLEN + 1"] none,
-  .call "" "insecure_memzero" ["blinding", "CRYPTO_DH_PRIVLEN"] none,
+  .call "" "BN_clear_free" ["priv_bn"] none,
+  .call "" "BN_free" ["two_exp_256_bn"] none,
   .ret,
   .label "err8",
   .call "" "BN_clear_free" ["r2"] none,
@@ -43,10 +49,10 @@ def blindedModexp : List Stmt := [
   .call "" "BN_clear_free" ["priv_blinded"] none,
   .label "err3",
   .call "" "BN_clear_free" ["blinding_bn"] none,
+  .label "err2",
+  .call "" "BN_clear_free" ["priv_bn"] none,
   .label "err1",
-  .call "" "insecure_memzero" ["dexp", "CRYPTO_DH_PRIVLEN + 1"] none,
-  .call "" "insecure_memzero" ["bexp", "CRYPTO_DH_PRIVLEN + 1"] none,
-  .call "" "insecure_memzero" ["blinding", "CRYPTO_DH_PRIVLEN"] none,
+  .call "" "BN_free" ["two_exp_256_bn"] none,
   .label "err0",
   .ret]
 
